@@ -710,7 +710,7 @@ impl Emitter {
     len += emit_register_or(X86Reg8::DL, mask, &mut exec[len..]);
     len += emit_hl_indirect_partial_write(self.mem as usize, &mut exec[len..]);
     len += emit_ip_increment(ip_increment, &mut exec[len..]);
-    len + emit_cycle_increment(2, &mut exec[len..])
+    len + emit_cycle_increment(4, &mut exec[len..])
   }
 
   pub fn encode_bit_clear(&self, reg: Register8, mask: u8, ip_increment: usize, exec: &mut [u8]) -> usize {
@@ -724,7 +724,7 @@ impl Emitter {
     len += emit_register_and(X86Reg8::DL, !mask, &mut exec[len..]);
     len += emit_hl_indirect_partial_write(self.mem as usize, &mut exec[len..]);
     len += emit_ip_increment(ip_increment, &mut exec[len..]);
-    len + emit_cycle_increment(2, &mut exec[len..])
+    len + emit_cycle_increment(4, &mut exec[len..])
   }
 
   pub fn encode_bit_test(&self, reg: Register8, mask: u8, ip_increment: usize, exec: &mut [u8]) -> usize {
